@@ -96,6 +96,10 @@ func run(c *fw.Ctx, idx int) {
 		armed bool
 	}
 	callN := map[string]uint64{}
+	// once this process has reported three stuck operations the remaining cases fail
+	// their calls the plain way only (each such report costs 40 s)
+	stuckSeen, _ := c.Store["c05-stuck"].(int)
+	plainErrors := stuckSeen >= 3
 	blockers := map[string]chan struct{}{}
 	var step int64
 	var noHold int32
@@ -128,6 +132,16 @@ func run(c *fw.Ctx, idx int) {
 		var d sim.Decision
 		if int(h%100) < errRate {
 			d.Err = fmt.Errorf("ipfs model: scripted failure of %s #%d", call.Op, callN[k])
+			// a third of the failures are the connector giving up on its own request
+			// (context.Canceled as such or wrapped), not the caller's cancellation
+			if !plainErrors {
+				switch (h >> 8) % 6 {
+				case 0:
+					d.Err = context.Canceled
+				case 1:
+					d.Err = fmt.Errorf("ipfs model: %s gave up: %w", call.Op, context.Canceled)
+				}
+			}
 		}
 		if int((h>>20)%100) < holdRate && atomic.LoadInt32(&noHold) == 0 {
 			hd := &hold{ch: make(chan struct{})}
@@ -378,9 +392,25 @@ func run(c *fw.Ctx, idx int) {
 	atomic.StoreInt64(&step, int64(n+100))
 	atomic.StoreInt32(&noHold, 1) // the history is over: nothing is held any more
 	releaseDue(true)
+	stuck := false
 	if !rig.Quiesce(ctx, 30*time.Second) {
-		c.Inconclusive("no quiescence after the history")
-		return
+		// nothing is held any more. If nothing at all happens for 10 more seconds (no call
+		// in the daemon, its call log silent), activity has quiesced as far as anybody can
+		// tell: the statuses are judged as they stand
+		n0 := rig.IPFS.NCalls()
+		idle := true
+		for w := 0; w < 100 && idle; w++ {
+			time.Sleep(100 * time.Millisecond)
+			if rig.IPFS.Inflight() > 0 || rig.IPFS.NCalls() != n0 {
+				idle = false
+			}
+		}
+		if !idle {
+			c.Inconclusive("no quiescence after the history")
+			return
+		}
+		stuck = true
+		c.Store["c05-stuck"] = stuckSeen + 1
 	}
 	tail := func() []string {
 		if len(trace) > 40 {
@@ -448,6 +478,9 @@ func run(c *fw.Ctx, idx int) {
 		}
 	}
 	check("quiescent", false)
+	if stuck {
+		return // operations that never end: the recover phase could not come to rest either
+	}
 	// heal the daemon and recover
 	atomic.StoreInt32(&healthy, 1)
 	callsAtHeal := rig.IPFS.NCalls()
